@@ -236,6 +236,19 @@ def main(argv=None):
         except Exception as e:  # noqa: BLE001
             assumed_checks = {"validator": dict(cases=0, disagreements=[], error=repr(e))}
 
+    # ---- CPython cross-check of the interpreter on concrete arguments (bounded; trust in the tool)
+    crosscheck = None
+    if not os.environ.get("PYVC_SKIP_CROSSCHECK") and any(r["paths"] for r in results):
+        try:
+            from pyvc.crosscheck import run as _cross
+
+            crosscheck = _cross(seed, 3 if a.tier == "quick" else 40, REPO)
+            for label, row in crosscheck.items():
+                if row["disagreements"]:
+                    broken.append(("interpreter-crosscheck", {}, f"the interpreter disagrees with CPython on {label}: {row['disagreements'][0]}"))
+        except Exception as e:  # noqa: BLE001
+            crosscheck = {"crosscheck": dict(cases=0, disagreements=[], error=repr(e))}
+
     # ---- known findings / violations
     kf = [k for k in known_findings() if prop in k.get("properties", ()) and k["kind"] == "known"]
     violations = []
@@ -342,6 +355,10 @@ def main(argv=None):
             failed_obligations=[dict(contract=n, cfg=c, obligation=o["name"]) for n, c, o in failed][:40],
             undecided=[dict(contract=n, cfg=c, reason=u[:200]) for n, c, u in undecided][:40],
             bounded_standins=sorted({t for s in specs for t in getattr(s, "bounded", ())}),
+            interpreter_crosscheck=dict(
+                note="BOUNDED: functions of /repo run on random concrete arguments by the pyvc interpreter and by CPython, "
+                     "results compared; a test of the tool, not counted in obligations/discharged",
+                table=crosscheck),
             assumed_contract_checks=dict(
                 note="BOUNDED differential test of the assumed contracts (NumPy kernels, normalize_chunks, zarr indexer) "
                      "against the real libraries on random concrete inputs; not proof, not counted in obligations/discharged",
